@@ -105,6 +105,7 @@ class Ledger:
         self.p0 = bench.npackets()
         self.spins_seen = 0
         self.dead = False
+        self.closed = {}  # ids already judged in this session -> label (late duplicates are looked for)
 
     def new_id(self):
         self.nextid += 1
@@ -149,7 +150,17 @@ class Ledger:
                 out[rid] = byid[rid][0]
         for rid in byid:
             if rid not in self.pending:
-                ctx.count("responses_with_foreign_id")
+                if rid in self.closed:
+                    ctx.count("late_duplicates_detected")
+                    ctx.violation("%s answered again later (late duplicate response for an id already answered)"
+                                  % self.closed[rid],
+                                  "a second response for a request id arrived after later requests had been processed",
+                                  dict(id=rid, responses=[dict(type=p["type"], body=p["body"][:48]) for p in byid[rid]]))
+                else:
+                    ctx.count("responses_with_foreign_id")
+        for rid, rq in self.pending.items():
+            self.closed[rid] = "%s %s" % (rq["label"], rq["cls"])
+        ctx.count("session_ids_watched_for_late_duplicates", len(self.pending))
         self.pending.clear()
         if state == "dead":
             self.dead = True
@@ -371,6 +382,83 @@ class ServerFuzz:
                      desc=dict(size=size, start=start, length=length, block=block, algs=algs))
             self.ask(4, S(h), "CLOSE", "valid", VALID[4])
 
+    FAULT_KINDS = {
+        "OSError(ENOSPC)": lambda: OSError(28, "No space left on device"),
+        "OSError(EACCES)": lambda: OSError(13, "Permission denied"),
+        "IOError without errno": lambda: IOError("vf: i/o failed"),
+        "ValueError": lambda: ValueError("I/O operation on closed file"),
+        "KeyError": lambda: KeyError("vf"),
+        "custom Exception": lambda: type("VfAppError", (Exception,), {})("vf application failure"),
+    }
+
+    def case_faulty(self):
+        """The application's handle / interface method raises while a request is processed: the request must still
+        be answered exactly once, by a STATUS, and nothing about it may surface later."""
+        rng = self.rng
+        mon = self.bench.mon
+        method = rng.choice(["close", "close", "read", "write", "stat", "chattr", "read-in-check-file",
+                             "si.stat", "si.lstat", "si.open", "si.list_folder", "si.remove", "si.chattr"])
+        kind = rng.choice(list(self.FAULT_KINDS))
+        n = rng.choice([1, 1, 2, 3])
+        self.ctx.case(("fault", method, kind, n), sample=dict(kind="application fault", method=method, raises=kind,
+                                                              times=n) if method == "close" and n == 1 else None)
+        cls = "application method raises"
+        d = dict(method=method, raises=kind, times=n)
+        h = None
+        if not method.startswith("si."):
+            h, path = self.open_file(pflags=3)
+            if h is None:
+                return
+        if method == "read-in-check-file" and self.sizes.get(path, 0) == 0:
+            method = "read"  # hashing an empty file reads nothing
+        key = "read" if method == "read-in-check-file" else method
+        raised0 = mon.faults_raised
+        mon.faults = {key: [self.FAULT_KINDS[kind], n]}
+        try:
+            for _ in range(n):
+                if method == "close":
+                    self.lg.send(4, S(h), "CLOSE", cls, {STATUS}, desc=d)
+                elif method == "read":
+                    self.lg.send(5, S(h) + U64(0) + U32(100), "READ", cls, {STATUS}, desc=d)
+                elif method == "write":
+                    self.lg.send(6, S(h) + U64(0) + S(b"vf"), "WRITE", cls, {STATUS}, desc=d)
+                elif method == "stat":
+                    self.lg.send(8, S(h), "FSTAT", cls, {STATUS}, desc=d)
+                elif method == "chattr":
+                    self.lg.send(10, S(h) + attrs(rng, "perm"), "FSETSTAT", cls, {STATUS}, desc=d)
+                elif method == "read-in-check-file":
+                    self.lg.send(200, S(b"check-file") + S(h) + S(b"md5") + U64(0) + U64(0) + U32(1024),
+                                 "EXTENDED check-file", cls, {STATUS}, desc=d)
+                elif method == "si.stat":
+                    self.lg.send(17, S(b"/f0"), "STAT", cls, {STATUS}, desc=d)
+                elif method == "si.lstat":
+                    self.lg.send(7, S(b"/f0"), "LSTAT", cls, {STATUS}, desc=d)
+                elif method == "si.open":
+                    self.lg.send(3, S(b"/f0") + U32(1) + U32(0), "OPEN", cls, {STATUS}, desc=d)
+                elif method == "si.list_folder":
+                    self.lg.send(11, S(b"/d"), "OPENDIR", cls, {STATUS}, desc=d)
+                elif method == "si.remove":
+                    self.lg.send(13, S(b"/missing"), "REMOVE", cls, {STATUS}, desc=d)
+                else:
+                    self.lg.send(9, S(b"/f0") + attrs(rng, "perm"), "SETSTAT", cls, {STATUS}, desc=d)
+                if rng.random() < 0.5:
+                    self.lg.settle()
+            self.lg.settle()
+        finally:
+            mon.faults = {}
+        self.ctx.count("application_faults_raised", mon.faults_raised - raised0)
+        self.ctx.count("application_faults_in_" + key.replace(".", "_"), mon.faults_raised - raised0)
+        # life goes on: the same handle, then other requests; late duplicates would show up here
+        if h is not None:
+            for which in rng.sample(["READ", "FSTAT", "WRITE"], 2):
+                self.handle_request(which, h, "valid")
+            self.lg.settle()
+            r = self.ask(4, S(h), "CLOSE", "valid", VALID[4], desc=dict(after="application fault"))
+            self.ask(4, S(h), "CLOSE", "valid after close", VALID[4], desc=dict(after="application fault"))
+        self.valid_ops(self.lg, rng.randint(1, 4))
+        self.lg.settle()
+        self.ask(17, S(b"/"), "STAT", "valid", VALID[17], desc=dict(after="application fault"))
+
     def valid_ops(self, lg, n):
         """n well-formed requests on live objects (sent through `lg`, not settled here)."""
         rng = self.rng
@@ -475,6 +563,7 @@ class ServerFuzz:
         if h is None or dh is None:
             return
         lg = Ledger(self.ctx, self.bench, "burst")
+        lg.closed = self.lg.closed
         lg.nextid = self.lg.nextid + 100000
         n = rng.randint(20, 120)
         self.ctx.case(("burst", n, rng.random()), sample=dict(kind="burst", requests=n) if n % 7 == 0 else None)
@@ -513,7 +602,8 @@ def run_server_side(ctx):
     plan = [c for i, c in enumerate(plan) if ctx.mine(i)]
     reps = ctx.pick(2, 12)
     extra = ctx.pick(250, 2000)
-    todo = plan * reps + [(rng.choice(["ext", "ext", "session", "trunc", "burst"]),) for _ in range(extra)]
+    todo = plan * reps + [(rng.choice(["ext", "ext", "session", "trunc", "burst", "fault", "fault"]),)
+                          for _ in range(extra)]
     rng.shuffle(todo)
     fz = None
     root = None
@@ -539,6 +629,8 @@ def run_server_side(ctx):
                 fz.case_session()
             elif c[0] == "trunc":
                 fz.case_truncated()
+            elif c[0] == "fault":
+                fz.case_faulty()
             else:
                 fz.case_burst()
             # keep the reply pipe from growing: nobody reads it in raw mode
@@ -587,6 +679,9 @@ class ClientProgram:
         self.step_p0 = 0
         self.done = False
         self.crash = None
+        self.helpers = []
+        self.abandoned = 0
+        self.release_when = None  # optional predicate the controller waits for (<= 2 s) before releasing replies
         self.t = threading.Thread(target=self.run, daemon=True, name="vf-c30-worker")
 
     def run(self):
@@ -626,6 +721,55 @@ class ClientProgram:
             c.listdir(st[1])
         elif k == "listdir_iter":
             list(c.listdir_iter(st[1], read_aheads=st[2]))
+        elif k == "abandon":
+            # the application drops the file object without close(): outstanding prefetch / readv / pipelined-write
+            # requests lose their (weak) _expecting entries, their responses still arrive
+            f = F.pop(st[1], None)
+            if f is not None:
+                self.abandoned_outstanding = sum(1 for v in list(c._expecting.values()) if v is f) + len(
+                    getattr(f, "_reqs", ()))
+                self.abandoned += 1
+                del f
+            import gc
+
+            gc.collect()
+        elif k == "prefetch_all_but_one":
+            f = F[st[1]]
+            n = -(-f.stat().st_size // f.MAX_REQUEST_SIZE)
+            f.prefetch(max_concurrent_requests=max(1, n - 1))
+            del f
+        elif k == "wait_wire_quiet":
+            end = time.monotonic() + 10
+            while time.monotonic() < end:
+                if self.b.server_idle() and len(self.b.wire.requests()) == len(self.b.wire.responses()):
+                    break
+                time.sleep(0.002)
+        elif k == "hold_until_prefetch_threads_end":
+            self.b.wire.hold_replies()
+            self.release_when = lambda: not prefetch_threads(c)
+        elif k == "wait_prefetch_sent":
+            f = F.get(st[1])
+            end = time.monotonic() + 20
+            while f is not None and prefetch_threads(c, only=f) and time.monotonic() < end:
+                time.sleep(0.002)
+            del f
+        elif k == "readv_partial":
+            g = F[st[1]].readv(st[2])
+            next(g)
+            del g
+        elif k == "in_thread":
+            box = []
+
+            def inner():
+                try:
+                    self.step(st[1])
+                except Exception as e:  # same policy as the worker: errors are not what C30 judges
+                    box.append(e)
+
+            h = threading.Thread(target=inner, daemon=True, name="vf-c30-helper")
+            self.helpers.append(h)
+            h.start()
+            h.join()
         elif k == "iter_interleave":
             n = 0
             for _attr in c.listdir_iter(st[1], read_aheads=st[2]):
@@ -787,25 +931,121 @@ def iter_program(rng):
     return dict(family="iter-interleave", action=action), steps
 
 
-def prefetch_threads(client=None):
+def followups(rng, n):
+    out = []
+    for _ in range(n):
+        r = rng.random()
+        if r < 0.3:
+            out.append((rng.choice(["stat", "lstat", "normalize"]), rng.choice(["/r0", "/r1", "/", "/missing"])))
+        elif r < 0.4:
+            out.append(("listdir", rng.choice(["/", "/d"])))
+        elif r < 0.5:
+            out.append(("listdir_iter", rng.choice(["/", "/d"]), rng.choice([1, 5, 50])))
+        elif r < 0.65:
+            key = "n%d" % len(out)
+            out += [("open_r", key, rng.choice(["/r0", "/r1"])), ("prefetch", key, rng.choice([None, 1, 4])),
+                    ("read", key, rng.choice([100, 40000, 500000])), ("close", key)]
+        elif r < 0.75:
+            out.append(("getfo", rng.choice(["/r0", "/r1"]), True))
+        elif r < 0.85:
+            out.append(("in_thread", (rng.choice(["stat", "lstat"]), "/r1")))
+        elif r < 0.92:
+            out.append(("in_thread", ("getfo", "/r1", True)))
+        else:
+            out.append(("putfo", "q%d" % len(out), rng.choice([10, 40000]), rng.random() < 0.5))
+    return out
+
+
+def last_ref_program(rng):
+    """Abandoned prefetching file whose last reference ends up inside SFTPClient._read_response: the prefetch thread
+    (which keeps the file alive) can send its final request and exit only when a reader retires a slot, and that
+    reader's own reply is delayed until the thread is gone."""
+    steps = [("open_r", "a", "/r1"), ("prefetch_all_but_one", "a"), ("wait_wire_quiet",), ("abandon", "a"),
+             ("hold_until_prefetch_threads_end",)]
+    steps.append(rng.choice([("stat", "/r0"), ("listdir", "/"), ("normalize", "/"), ("in_thread", ("stat", "/r1")),
+                             ("open_r", "z", "/r0")]))
+    steps.append(("release_all",))
+    steps += followups(rng, rng.randint(1, 3))
+    if steps[5][0] == "open_r":
+        steps.append(("close", "z"))
+    return dict(family="abandon-last-ref"), steps
+
+
+def abandon_program(rng):
+    """A file object with outstanding requests is dropped without close() (+ gc); the session is used on."""
+    how = rng.choice(["prefetch", "prefetch", "prefetch-limited", "readv", "pipelined-writes", "prefetch+writes"])
+    gate = rng.choice(["held", "held", "open", "released-before-drop"])
+    steps = []
+    if gate != "open":
+        steps.append(("hold",))
+    if how in ("prefetch", "prefetch-limited", "prefetch+writes"):
+        steps += [("open_r", "a", "/r1"), ("prefetch", "a", None if how != "prefetch-limited" else rng.choice([1, 3]))]
+        if how != "prefetch-limited":
+            steps.append(("wait_prefetch_sent", "a"))
+        if rng.random() < 0.3 and gate != "held":
+            steps.append(("read", "a", rng.choice([1, 100, 40000])))
+    if how == "readv":
+        steps += [("open_r", "a", "/r1"),
+                  ("readv_partial", "a", [(rng.randint(0, 90000), rng.randint(1, 40000)) for _ in range(rng.randint(2, 5))])]
+    if how in ("pipelined-writes", "prefetch+writes"):
+        steps += [("open_w", "b", True, "w"), ("write", "b", rng.choice([1, 100, 5000]), rng.choice([1, 10, 60, 120]))]
+    if gate == "released-before-drop":
+        steps.append(("release", rng.choice([1, 2, 5])))
+    if how != "pipelined-writes":
+        steps.append(("abandon", "a"))
+    if how in ("pipelined-writes", "prefetch+writes"):
+        steps.append(("abandon", "b"))
+    if gate == "held" and rng.random() < 0.5:
+        steps.append(("release_all",))
+    steps += followups(rng, rng.randint(2, 6))
+    return dict(family="abandon", how=how, gate=gate), steps
+
+
+def prefetch_threads(client=None, only=None):
     out = []
     for t in threading.enumerate():
         tg = getattr(t, "_target", None)
         if tg is not None and getattr(tg, "__name__", "") == "_prefetch_thread" and t.is_alive():
-            if client is None or getattr(getattr(tg, "__self__", None), "sftp", None) is client:
+            owner = getattr(tg, "__self__", None)
+            if (client is None or getattr(owner, "sftp", None) is client) and (only is None or owner is only):
                 out.append(t)
     return out
+
+
+class _Unexpected(__import__("logging").Handler):
+    sink = None
+
+    def emit(self, record):
+        if self.sink is not None and "Unexpected response" in str(record.msg):
+            self.sink.append(1)
+
+
+_UNEXPECTED = _Unexpected()
+
+
+def _watch_unexpected(bench):
+    """Count the client's own 'Unexpected response #n' log lines (responses whose id is no longer expected)."""
+    import logging
+
+    lg = logging.getLogger("paramiko.sftp")
+    if _UNEXPECTED not in lg.handlers:
+        lg.addHandler(_UNEXPECTED)
+        lg.setLevel(logging.DEBUG)
+        lg.propagate = False
+    _UNEXPECTED.sink = bench.unexpected_log
 
 
 def client_case(ctx, idx):
     rng = ctx.rng
     r = rng.random()
-    fam = "steal" if r < 0.2 else "iter" if r < 0.3 else "random"
-    desc, steps = steal_program(rng) if fam == "steal" else iter_program(rng) if fam == "iter" else random_program(rng)
+    fam = "steal" if r < 0.15 else "iter" if r < 0.25 else "abandon" if r < 0.47 else "lastref" if r < 0.5 else "random"
+    desc, steps = steal_program(rng) if fam == "steal" else iter_program(rng) if fam == "iter" else \
+        abandon_program(rng) if fam == "abandon" else last_ref_program(rng) if fam == "lastref" else random_program(rng)
     policy = rng.choice(["all", "all", "one", "some"])
     desc["release_policy"] = policy
     has_pipe = any(s[0] == "open_w" and s[2] for s in steps) or any(
-        s[0] in ("prefetch", "readv", "putfo", "getfo", "iter_interleave", "listdir_iter") for s in steps)
+        s[0] in ("prefetch", "readv", "readv_partial", "putfo", "getfo", "iter_interleave", "listdir_iter")
+        for s in steps)
     ctx.case((fam, tuple(map(repr, steps)), policy),
              sample=dict(desc, program=[list(s) for s in steps][:14]) if idx % 23 == 1 else None, nontrivial=has_pipe)
     root = tempfile.mkdtemp(prefix="vf-c30c-")
@@ -818,6 +1058,8 @@ def client_case(ctx, idx):
         for i in range(rng.choice([0, 5, 40])):
             open(os.path.join(root, "d", "e%d" % i), "w").close()
         bench = MonBench(root)
+        bench.unexpected_log = []
+        _watch_unexpected(bench)
         if rng.random() < 0.25:
             frng = random.Random(rng.getrandbits(32))
             bench.wire.frag = lambda n, avail, frng=frng: frng.choice([1, 3, n, n, avail, 7])
@@ -830,6 +1072,14 @@ def client_case(ctx, idx):
         ctx.count("client_requests_on_wire", len(reqs))
         ctx.count("client_pipelined_write_requests", sum(1 for p in reqs if p["type"] == CMD["WRITE"]))
         ctx.count("client_steps_executed", len(prog.log))
+        ctx.count("client_programs_family_" + desc["family"])
+        if prog.abandoned:
+            ctx.count("client_files_abandoned_without_close", prog.abandoned)
+            ctx.count("client_requests_outstanding_at_abandon", getattr(prog, "abandoned_outstanding", 0))
+            un = sum(1 for ln in getattr(bench, "unexpected_log", ()) if ln)
+            ctx.count("client_unexpected_responses_seen", un)
+            ctx.count("client_steps_after_abandon_completed",
+                      sum(1 for (i, k, r) in prog.log if i > min(j for j, s in enumerate(steps) if s[0] == "abandon")))
         if prog.crash is not None:
             ctx.inconclusive("client worker crashed: %r" % (prog.crash,))
     finally:
@@ -841,7 +1091,8 @@ def client_case(ctx, idx):
 def control(ctx, bench, prog, policy, desc):
     """Release held replies whenever the client waits; decide blocked-forever at logical quiescence."""
     crng = random.Random(1)
-    t_end = time.monotonic() + 180.0
+    stuck_after = 12.0 if ctx.quick else 20.0
+    last_key, last_progress, stack_samples, next_sample = None, time.monotonic(), set(), 0.0
     stable_since = None
     stable_key = None
     next_storm_check = time.monotonic() + 0.5
@@ -856,16 +1107,32 @@ def control(ctx, bench, prog, policy, desc):
             next_storm_check = now + 0.5
             if request_storm(ctx, bench, prog, desc):
                 return "livelock"
-        if now > t_end:
-            fr = sys._current_frames().get(prog.t.ident)
-            ctx.inconclusive("client program neither finished nor quiescent after 180 s at step %r; stack %s"
-                             % (prog.steps[prog.at] if prog.at >= 0 else None, paramiko_frames(fr) if fr else "?"))
-            return "watchdog"
         w = bench.wire
         with w.s2c.cv:
             waiting = w.client_end.waiting and not w.s2c.buf
             held = len(w.s2c.held)
-        if waiting and held:
+            nrecv = w.client_end.nrecv
+        # progress = a packet moved, the client consumed bytes, or the program advanced
+        pkey = (bench.npackets(), nrecv, prog.at, len(prog.log))
+        if pkey != last_key:
+            last_key, last_progress, stack_samples = pkey, now, set()
+        elif now >= next_sample:
+            next_sample = now + 1.0
+            stack_samples.add(tuple(busy_stack(prog)[1][-3:]))
+        quiet = now - last_progress
+        if quiet >= stuck_after and not held and not prog.done and bench.server_idle() and len(stack_samples) == 1 \
+                and not (waiting and bench.client_idle()):
+            # DESIGN 2.4 rule 2: link drained, server idle, no byte consumed, same stack for >= 12/20 s, and the
+            # client is not even waiting for input (a thread parked in recv is handled below, sooner)
+            return stuck(ctx, bench, prog, desc, quiet)
+        if quiet > 150.0:
+            ctx.inconclusive("client program made no progress for 150 s without reaching quiescence at step %r; "
+                             "stack %s" % (prog.steps[prog.at] if prog.at >= 0 else None, busy_stack(prog)[1]))
+            return "watchdog"
+        if waiting and held and prog.release_when is not None and not prog.release_when() \
+                and now - last_progress < 2.0:
+            pass  # scripted delay: e.g. let a prefetch thread finish before the reader's own reply arrives
+        elif waiting and held:
             k = held if (policy == "all" or releases > 60) else 1 if policy == "one" else crng.randint(1, held)
             w.release_replies(k)  # the gate stays closed: later replies wait until the client waits again
             releases += 1
@@ -899,15 +1166,58 @@ def control(ctx, bench, prog, policy, desc):
         evt.wait(0.003)
 
 
+def busy_stack(prog):
+    """(thread, paramiko function names) of the program thread that is inside paramiko (reader preferred)."""
+    frames = sys._current_frames()
+    best = (prog.t, [])
+    for t in [prog.t] + list(prog.helpers):
+        fr = frames.get(t.ident)
+        if fr is None:
+            continue
+        names = paramiko_frames(fr)
+        if "_read_packet" in names:
+            return (t, names)
+        if names and not best[1]:
+            best = (t, names)
+    return best
+
+
+def stuck(ctx, bench, prog, desc, quiet):
+    t, names = busy_stack(prog)
+    site = "->".join(names[-2:]) if names else "?"
+    step = prog.steps[prog.at]
+    ctx.count("client_calls_stuck_at_quiescence")
+    ctx.violation("client stuck forever in %s without reading: session quiescent, every request answered" % site,
+                  "no packet moved and the client consumed no byte for %.0f s while the server was idle and nothing was "
+                  "held back; the call %r never returned and its stack did not change" % (quiet, step[0]),
+                  dict(program=desc, step_index=prog.at, step=list(step), steps=[list(x) for x in prog.steps][:40],
+                       stack=names, thread=t.name, requests=len(bench.wire.requests()),
+                       responses=len(bench.wire.responses())))
+    return "stuck"
+
+
 STORM = 400
+MAX_REQUESTS_PER_CALL = 5000  # the largest legitimate step of these programs issues < 400 requests
 
 
 def request_storm(ctx, bench, prog, desc):
     """Logical livelock evidence: within one API call the client has sent READDIR after READDIR on one
     handle, each answered with STATUS, `STORM` times in a row - it is not stopping at end-of-folder."""
-    if prog.at < 0 or prog.steps[prog.at][0] not in ("listdir_iter", "iter_interleave"):
+    if prog.at < 0:
         return False
     pk = bench.packets_from(prog.step_p0)
+    nreq = sum(1 for p in pk if p["dir"] == "c2s")
+    if nreq > MAX_REQUESTS_PER_CALL and prog.steps[prog.at][0] not in ("listdir_iter", "iter_interleave"):
+        nresp = sum(1 for p in pk if p["dir"] == "s2c")
+        ctx.count("client_livelocks_detected")
+        ctx.violation("client never returns: one call keeps issuing requests (all answered) without end",
+                      "%d requests / %d responses inside a single %r call, more than ten times what the call can need"
+                      % (nreq, nresp, prog.steps[prog.at][0]),
+                      dict(program=desc, step_index=prog.at, steps=[list(x) for x in prog.steps][:40],
+                           stack=busy_stack(prog)[1]))
+        return True
+    if prog.steps[prog.at][0] not in ("listdir_iter", "iter_interleave"):
+        return False
     if len(pk) < 2 * STORM:
         return False
     reqs = [p for p in pk if p["dir"] == "c2s"]
@@ -931,8 +1241,8 @@ def request_storm(ctx, bench, prog, desc):
 
 
 def blocked(ctx, bench, prog, desc, nreq, nresp, others):
-    fr = sys._current_frames().get(prog.t.ident)
-    names = paramiko_frames(fr) if fr is not None else []
+    bt, names = busy_stack(prog)
+    fr = sys._current_frames().get(bt.ident)
     site = "?"
     has_rr = "_read_response" in names
     if has_rr:
